@@ -1055,6 +1055,9 @@ func (ev *gemEval) foldTextFunc(fn *types.Func, args []ast.Expr, e *env) ([]Part
 	if parts, ok := ev.foldStraightLineTextFunc(fn, args, e); ok {
 		return parts, true
 	}
+	if parts, ok := ev.foldStringBuilderFunc(fn, args, e); ok {
+		return parts, true
+	}
 	// a selector of code text: a function that returns one of several constants depending on its (boolean / string)
 	// parameters — the text is one of those constants (the one its conditions select, when they are known here)
 	if !isTextFunc(sig) && sig.Results().Len() == 1 && isStringType(sig.Results().At(0).Type()) {
@@ -1233,6 +1236,114 @@ func (ev *gemEval) foldStraightLineTextFunc(fn *types.Func, args []ast.Expr, e *
 			return nil, false
 		}
 		return parts, true
+	}
+	return nil, false
+}
+
+// foldStringBuilderFunc: a function of the package that assembles code text in a local strings.Builder — `var sb
+// strings.Builder`, a run of sb.WriteString(<string>) / sb.WriteRune / sb.WriteByte(<constant>) statements, `return
+// sb.String()` — applied to the arguments: the concatenation of the pieces, string parameters standing for what the
+// caller passes.
+func (ev *gemEval) foldStringBuilderFunc(fn *types.Func, args []ast.Expr, e *env) ([]Part, bool) {
+	info := ev.info()
+	sig, _ := fn.Type().(*types.Signature)
+	if sig == nil || fn.Pkg() != ev.g.pkg.Types || sig.Results().Len() != 1 || !isStringType(sig.Results().At(0).Type()) {
+		return nil, false
+	}
+	for _, fd := range allFuncDecls(ev.g.pkg) {
+		if info.Defs[fd.Name] != types.Object(fn) || fd.Body == nil || fd.Recv != nil || len(fd.Body.List) < 3 {
+			continue
+		}
+		ret, ok := fd.Body.List[len(fd.Body.List)-1].(*ast.ReturnStmt)
+		if !ok || len(ret.Results) != 1 {
+			return nil, false
+		}
+		rc, ok := ast.Unparen(ret.Results[0]).(*ast.CallExpr)
+		if !ok || len(rc.Args) != 0 {
+			return nil, false
+		}
+		rse, ok := ast.Unparen(rc.Fun).(*ast.SelectorExpr)
+		if !ok || rse.Sel.Name != "String" {
+			return nil, false
+		}
+		bid, ok := ast.Unparen(rse.X).(*ast.Ident)
+		if !ok {
+			return nil, false
+		}
+		buf := info.ObjectOf(bid)
+		if buf == nil || !strings.HasSuffix(strings.TrimPrefix(buf.Type().String(), "*"), "strings.Builder") {
+			return nil, false
+		}
+		e2 := newEnv()
+		k := 0
+		for _, prm := range fd.Type.Params.List {
+			for _, nm := range prm.Names {
+				if k >= len(args) {
+					return nil, false
+				}
+				if ob := info.Defs[nm]; ob != nil && isStringType(ob.Type()) {
+					e2.vals[ob] = ev.fold(args[k], e)
+				}
+				k++
+			}
+		}
+		sub := &gemEval{g: ev.g, gf: ev.gf, depth: ev.depth + 1}
+		var out []Part
+		for _, st := range fd.Body.List[:len(fd.Body.List)-1] {
+			switch t := st.(type) {
+			case *ast.DeclStmt:
+				continue
+			case *ast.AssignStmt:
+				// sb := new(strings.Builder) / a string local
+				if len(t.Lhs) == 1 && len(t.Rhs) == 1 {
+					if id, ok := t.Lhs[0].(*ast.Ident); ok {
+						if ob := info.ObjectOf(id); ob == buf {
+							continue
+						} else if ob != nil && isStringType(ob.Type()) {
+							e2.vals[ob] = sub.fold(t.Rhs[0], e2)
+							continue
+						}
+					}
+				}
+				return nil, false
+			case *ast.ExprStmt:
+				call, ok := t.X.(*ast.CallExpr)
+				if !ok || len(call.Args) != 1 {
+					return nil, false
+				}
+				se, ok := ast.Unparen(call.Fun).(*ast.SelectorExpr)
+				if !ok {
+					return nil, false
+				}
+				if id, ok := ast.Unparen(se.X).(*ast.Ident); !ok || info.ObjectOf(id) != buf {
+					return nil, false
+				}
+				switch se.Sel.Name {
+				case "WriteString":
+					out = append(out, sub.fold(call.Args[0], e2)...)
+				case "WriteRune", "WriteByte":
+					v, isC := constInt(info, call.Args[0])
+					if !isC {
+						return nil, false
+					}
+					out = append(out, Part{Kind: PConst, Const: string(rune(v))})
+				default:
+					return nil, false
+				}
+			default:
+				return nil, false
+			}
+		}
+		hasConst := false
+		for _, p := range out {
+			if p.Kind == PConst && strings.TrimSpace(p.Const) != "" {
+				hasConst = true
+			}
+		}
+		if !hasConst {
+			return nil, false
+		}
+		return out, true
 	}
 	return nil, false
 }
@@ -1884,7 +1995,7 @@ func (ev *gemEval) bindTupleFromHelper(s *ast.AssignStmt, e *env) map[types.Obje
 						}
 					}
 				}
-			case *ast.ExprStmt:
+			case *ast.ExprStmt, *ast.IncDecStmt:
 			default:
 				return bound
 			}
